@@ -483,7 +483,12 @@ fn gen_exhaustive_pool(emit: &mut dyn FnMut(Value), max_k: usize, pool: &[Pat], 
                         }
                     }
                     // the behaviour of the same history on a case-insensitive tree differs only in the matcher
-                    emit_modes(emit, false, false, &ops, hay, true, &["beh", "snap", "real"]);
+                    // mode real carries the snapshots in the case: for 4-subsets only without removals and with one removal
+                    if k <= 3 || mask.count_ones() <= 1 {
+                        emit_modes(emit, false, false, &ops, hay, true, &["beh", "snap", "real"]);
+                    } else {
+                        emit_modes(emit, false, false, &ops, hay, true, &["beh", "snap"]);
+                    }
                 }
             }
         }
